@@ -24,7 +24,10 @@ MANIFEST = dict(
     text="proof (partial). Machine-checked (Coq): substituting T := T^k with k the non-zero integer LCM of the "
          "denominators (what check_statement does before generalising and printing an inferred signature) does not "
          "change the set of ground instances of a type, in both directions (C16_lcm_iso, C16_lcm_iso_back, "
-         "C16_lcm_factor; closed under the global context), over the executable model Dim/Model.v + Dim/Infer.v of "
+         "C16_lcm_factor), and the dimension-expression print/parse round trip at the level of the expression tree "
+         "(C16_dexpr_roundtrip: printing any closed dimension type as positive factors / inverted non-positive factors "
+         "and reading it back through the registry gives the same exponent vector); all closed under the global context, "
+         "over the executable model Dim/Model.v + Dim/Infer.v of "
          "typechecker/{mod,constraints,substitutions,type_scheme}.rs. NOT proved (stated as C16_calls_agree_full : Prop): "
          "that re-checking the body under the printed signature yields the same scheme; that clause is decided on every "
          "run by the oracle on the real implementation (echoed definition fed back, generated call sites with concrete "
@@ -37,7 +40,7 @@ MANIFEST = dict(
     technique="Coq proof (semantic instance sets under substitution) + model/implementation correspondence + re-annotation oracle",
 )
 
-THEOREMS = ["C16_lcm_iso", "C16_lcm_iso_back", "C16_lcm_factor"]
+THEOREMS = ["C16_lcm_iso", "C16_lcm_iso_back", "C16_lcm_factor", "C16_dexpr_roundtrip"]
 IMPORTS = ["Dim.Model", "Dim.Infer", "Dim.Exec", "Gen.PreludeDims"]
 
 num = lambda s: ("num", s)
@@ -50,10 +53,17 @@ def bn(o, a, b):
 
 
 EXPS = [Fraction(1), Fraction(2), Fraction(3), Fraction(-1), Fraction(1, 2), Fraction(1, 3), Fraction(2, 3),
-        Fraction(3, 2), Fraction(-1, 2), Fraction(1, 4), Fraction(5, 2), Fraction(1, 6)]
+        Fraction(3, 2), Fraction(-1, 2), Fraction(1, 4), Fraction(5, 2), Fraction(1, 6), Fraction(0), Fraction(-2)]
+
+ZERO_FORMS = [num("0"), bn("-", num("1"), num("1")), bn("-", bn("*", num("2"), num("3")), num("6"))]
+ONE_FORMS = [bn("-", num("3"), num("2")), bn("/", num("2"), num("2")), bn("+", num("0.5"), num("0.5"))]
 
 
-def exp_expr(q):
+def exp_expr(q, rng=None):
+    if q == 0:
+        return ZERO_FORMS[0] if rng is None else rng.choice(ZERO_FORMS)
+    if q == 1 and rng is not None:
+        return rng.choice(ONE_FORMS)
     if q.denominator == 1:
         return num(str(q.numerator)) if q >= 0 else ("un", "neg", num(str(-q.numerator)))
     e = bn("/", num(str(abs(q.numerator))), num(str(q.denominator)))
@@ -69,7 +79,7 @@ def gen_monomial(rng, params, exps=None):
     for p in ps[:rng.randint(1, len(ps))]:
         q = rng.choice(EXPS) if exps is None else exps[p]
         vec[p] = q
-        t = idn(p) if q == 1 else bn("^", idn(p), exp_expr(q))
+        t = idn(p) if (q == 1 and rng.random() < 0.8) else bn("^", idn(p), exp_expr(q, rng))
         if e is None:
             e = t
         else:
@@ -118,15 +128,85 @@ ARGS = [("1 m", bn("*", num("1"), unit("m"))), ("2 s", bn("*", num("2"), unit("s
 
 
 def gen_case(rng, k):
-    np_ = rng.choice([1, 2, 2, 3])
+    """-> (defs, calls): defs is a list of statements whose last one is the unannotated function
+    under test (helpers it calls come first); the families cover every way a parameter can be used:
+    arithmetic, only compared with == / !=, only ordered, unused, only passed on, through
+    where-locals, as a condition, inside lists"""
+    np_ = rng.choice([1, 2, 2, 3, 3])
     params = ["pa%d" % i for i in range(np_)]
     fname = "fq%d" % k
-    body = gen_body(rng, params)
-    fn = ("fn", fname, [], [(p, None) for p in params], None, [], body)
+    defs = []
+    locs = []
+    fam = rng.choice(["arith", "arith", "arith", "eqonly", "eqonly", "unused", "passon", "where", "boolp", "lists",
+                      "ordonly", "eqlit", "recursive"])
+    if fam == "arith" or np_ == 1 and fam in ("eqonly", "ordonly", "unused"):
+        body = gen_body(rng, params)
+    elif fam == "eqonly":      # some parameters occur only as operands of == / !=
+        a, b = params[0], params[1]
+        rest = params[2:] or [rng.choice(params)] if rng.random() < 0.3 else params[2:]
+        x = gen_body(rng, rest) if rest else num(rng.choice(["1", "2"]))
+        y = bn("*", num("2"), x) if rng.random() < 0.7 else (gen_body(rng, rest) if rest else num("0"))
+        body = ("if", bn(rng.choice(["==", "!="]), idn(a), idn(b)), x, y)
+    elif fam == "ordonly":     # only ordered against each other (needs Dim, no arithmetic)
+        a, b = params[0], params[1]
+        rest = params[2:]
+        x = gen_body(rng, rest) if rest else num("1")
+        body = ("if", bn(rng.choice(["<", ">=", ">", "<="]), idn(a), idn(b)), x, bn("*", num("3"), x))
+    elif fam == "eqlit":       # compared with a concrete quantity
+        a = params[0]
+        q = rng.choice(ARGS[:10])[1]
+        x = gen_body(rng, params[1:]) if params[1:] else num("1")
+        body = ("if", bn(rng.choice(["==", "!=", "<"]), idn(a), q), x, bn("*", num("2"), x))
+    elif fam == "unused":      # at least one parameter does not occur in the body at all
+        used = params[1:]
+        body = gen_body(rng, used)
+    elif fam == "passon":      # parameters only handed to another (user or library) function
+        hname = "hq%d" % k
+        hk = rng.choice(["id", "mul", "cmp", "lib"])
+        if hk == "id":
+            defs.append(("fn", hname, [], [("pb0", None)], None, [], idn("pb0")))
+            body = ("call", hname, [idn(params[0])])
+        elif hk == "mul":
+            defs.append(("fn", hname, [], [("pb0", None), ("pb1", None)], None, [], bn("*", idn("pb0"), bn("^", idn("pb1"), exp_expr(rng.choice(EXPS), rng)))))
+            body = ("call", hname, [idn(params[0]), idn(params[-1])])
+        elif hk == "cmp":
+            defs.append(("fn", hname, [], [("pb0", None), ("pb1", None)], None, [], bn("==", idn("pb0"), idn("pb1"))))
+            body = ("if", ("call", hname, [idn(params[0]), idn(params[-1])]), num("1"), num("2"))
+        else:
+            body = ("call", rng.choice(["abs", "sqrt", "sqr", "cbrt"]), [idn(params[0])])
+        if len(params) > 1 and rng.random() < 0.5:
+            body = bn("*", body, idn(params[1]))
+    elif fam == "recursive":   # the function calls itself (its own type is not yet generalised there)
+        cnt = params[-1]
+        step = [idn(p) if rng.random() < 0.5 else bn("*", idn(p), num("2")) for p in params[:-1]]
+        if step and rng.random() < 0.3:
+            step[0] = bn("*", step[0], step[0])          # forces that parameter to be dimensionless
+        base = gen_body(rng, params[:-1]) if params[:-1] else num("1")
+        rec = ("call", fname, step + [bn("-", idn(cnt), num("1"))])
+        body = ("if", bn("<=", idn(cnt), num("0")), base, rec if rng.random() < 0.6 else bn("+", rec, base))
+    elif fam == "where":       # parameters reach the body only through where-locals
+        locs.append(("wl0", None, gen_body(rng, params[:1])))
+        if len(params) > 1:
+            locs.append(("wl1", None, bn("*", idn("wl0"), gen_body(rng, params[1:]))))
+        body = rng.choice([idn(locs[-1][0]), bn("*", num("2"), idn(locs[-1][0])), bn("+", idn(locs[-1][0]), idn(locs[-1][0]))])
+    elif fam == "boolp":       # a parameter is a condition
+        x = gen_body(rng, params[1:]) if params[1:] else num("1")
+        c = idn(params[0]) if rng.random() < 0.6 else bn("&&", idn(params[0]), ("bool", True))
+        body = ("if", c, x, bn("*", num("2"), x))
+    else:                      # lists
+        x = gen_body(rng, params[:1])
+        body = rng.choice([("list", [x, bn("*", num("2"), x)]), ("call", "mean", [("list", [x, x])]),
+                           ("list", [idn(p) for p in params])])
+    fn = ("fn", fname, [], [(p, None) for p in params], None, locs, body)
+    defs.append(fn)
     calls = []
-    for _ in range(6):
+    for _ in range(5):
         calls.append(("expr", ("call", fname, [rng.choice(ARGS)[1] for _ in params])))
-    return fn, calls
+    return defs, calls, fam
+
+
+def defs_src(defs):
+    return "\n".join(D.src_stmt(d) for d in defs)
 
 
 def unesc(s):
@@ -172,8 +252,8 @@ def oracle_one(binary, fn_src, call_srcs):
     (tcs, exs), = run_sessions(binary, [[fn_src] + call_srcs])
     if not tcs[0].startswith("ok|"):
         return None  # the unannotated function is not accepted: nothing to check
-    pp = unesc(extra_field(exs[0], "pp") or "")
-    if not pp.startswith("fn "):
+    pp = unesc(extra_field(exs[0], "pp") or "").replace("\x1f", "\n")
+    if "fn " not in pp:
         return dict(kind="no echoed definition", observed=exs[0])
     (tcs2, exs2), = run_sessions(binary, [[pp] + call_srcs])
     if not tcs2[0].startswith("ok|"):
@@ -197,7 +277,8 @@ def known_match(known, failure):
                 and m["text"] in failure.get("printed", "").split(" = ")[0]:
             return f
         if m.get("kind") == "printed-signature-matches" and failure.get("kind") == m.get("failure_kind") \
-                and re.search(m["regex"], failure.get("printed", "").split(" = ")[0]):
+                and re.search(m["regex"], failure.get("printed", "") if m.get("scope") == "whole"
+                              else failure.get("printed", "").split(" = ")[0]):
             return f
     return None
 
@@ -218,33 +299,32 @@ def run(chk):
     corpus_path = os.path.join(common.VERIF, "corpus", "c16.json")
     if os.path.exists(corpus_path):
         for c in json.load(open(corpus_path)):
-            cases.append((D.from_json(c["fn"]) if hasattr(D, "from_json") else None,
-                          [D.from_json(x) for x in c["calls"]], "corpus"))
-    n = 260 if quick else 6000
+            cases.append(([D.from_json(x) for x in c["defs"]], [D.from_json(x) for x in c["calls"]], "corpus"))
+    n = 200 if quick else 6000
     for k in range(n):
-        fn, calls = gen_case(chk.rng, k)
-        cases.append((fn, calls, "generated"))
+        defs, calls, fam = gen_case(chk.rng, k)
+        cases.append((defs, calls, fam))
     # multi-name class: closed dimension with several registered names in the signature
     for k, u in enumerate(["J", "N", "Hz"]):
         fn = ("fn", "fm%d" % k, [], [("pa0", None)], None, [], bn("*", num("2"), unit(u)))
-        cases.append((fn, [("expr", ("call", "fm%d" % k, [num("1")]))], "multi-name"))
+        cases.append(([fn], [("expr", ("call", "fm%d" % k, [num("1")]))], "multi-name"))
 
     # ---- implementation: inferred version with its call sites (one session per case)
-    sessions = [[D.src_stmt(fn)] + [D.src_stmt(c) for c in calls] for fn, calls, _ in cases]
+    sessions = [[defs_src(defs)] + [D.src_stmt(c) for c in calls] for defs, calls, _ in cases]
     impl = run_sessions(binary, sessions)
     # ---- model correspondence on the definition + every call (each call is its own input: a
     #      rejected call must not hide the others)
     items, idx = [], []
-    for n_, (fn, calls, _) in enumerate(cases):
+    for n_, (defs, calls, _) in enumerate(cases):
         tcs = impl[n_][0]
         if not tcs or not tcs[0].startswith(("ok|", "err|")):
             continue
-        items.append((D.coq_case([[fn]]), tcs[0]))
+        items.append((D.coq_case([defs]), tcs[0]))
         idx.append((n_, -1))
         if tcs[0].startswith("ok|"):
             for j, c in enumerate(calls):
                 if j + 1 < len(tcs):
-                    items.append((D.coq_case([[fn], [c]]), tcs[0] + "&" + tcs[j + 1]))
+                    items.append((D.coq_case([defs, [c]]), tcs[0] + "&" + tcs[j + 1]))
                     idx.append((n_, j))
     bad = common.coq_mismatches(IMPORTS, items, "c16", shard_size=120)
     bad = {k: v for k, v in bad.items() if "MODEL-UNSUPPORTED" not in v}
@@ -253,7 +333,7 @@ def run(chk):
     accepted = [n_ for n_ in range(len(cases)) if impl[n_][0][0].startswith("ok|")]
     pps = {}
     for n_ in accepted:
-        pps[n_] = unesc(extra_field(impl[n_][1][0], "pp") or "")
+        pps[n_] = unesc(extra_field(impl[n_][1][0], "pp") or "").replace("\x1f", "\n")
     sessions2 = [[pps[n_]] + [D.src_stmt(c) for c in cases[n_][1]] for n_ in accepted]
     impl2 = run_sessions(binary, sessions2)
     failures = []
@@ -279,7 +359,7 @@ def run(chk):
                              printed=pps[n_], call=D.src_stmt(cases[n_][1][j]), inferred=a, annotated=b)
                     break
         if f:
-            f["function"] = D.src_stmt(cases[n_][0])
+            f["function"] = defs_src(cases[n_][0])
             failures.append((n_, f))
 
     reported = 0
@@ -316,7 +396,7 @@ def run(chk):
                                           if bad else "Props/C16.v: " + getattr(chk, "proof_failure", "?")),
             "mismatching_cases": len(bad),
             "first_case": None if k is None else {
-                "function": D.src_stmt(cases[idx[k][0]][0]),
+                "function": defs_src(cases[idx[k][0]][0]),
                 "call": None if idx[k][1] < 0 else D.src_stmt(cases[idx[k][0]][1][idx[k][1]]),
                 "implementation": items[k][1], "model": bad[k]},
         }, found_input=False)
@@ -327,10 +407,14 @@ def run(chk):
     chk.cov.update({
         "evaluations": len(cases),
         "distinct_nontrivial": len([d for d in distinct if re.search(r"\|Q[1-9]", d)]),
-        "rule": "seeded unannotated function bodies (monomials with rational exponents, sums of equal shapes, quotients, "
-                "conditionals, calls to sqrt/sqr/abs/cbrt/hypot2, 1-3 parameters) each with 6 call sites from a pool of "
+        "rule": "seeded unannotated function bodies (monomials with rational / zero / composite exponents, sums of equal "
+                "shapes, quotients, conditionals, calls to sqrt/sqr/abs/cbrt/hypot2; families in which parameters are only "
+                "compared with == / !=, only ordered, compared with a literal, unused, only passed on to a user or library "
+                "function, reach the body only through where-locals, are conditions, or are list elements; 1-3 "
+                "parameters) each with 6 call sites from a pool of "
                 "concrete quantities; distinct = distinct raw inferred schemes; non-trivial = the inferred scheme "
                 "quantifies over at least one variable",
+        "families": dict(collections.Counter(c[2] for c in cases)),
         "functions_accepted": len(accepted),
         "functions_rejected": len(cases) - len(accepted),
         "polymorphic_functions": poly,
@@ -340,7 +424,7 @@ def run(chk):
         "model_mismatches": len(bad),
         "oracle_failures": len(failures),
         "exhaustive": False,
-        "samples": [{"function": D.src_stmt(cases[n_][0]), "inferred": impl[n_][0][0], "echo": pps.get(n_),
+        "samples": [{"function": defs_src(cases[n_][0]), "inferred": impl[n_][0][0], "echo": pps.get(n_),
                      "calls": [D.src_stmt(c) for c in cases[n_][1]][:3], "call_results": impl[n_][0][1:4]}
                     for n_ in (accepted[:2] + accepted[-1:])],
     })
